@@ -610,8 +610,10 @@ func zzG04Units(d, unit time.Duration) (s string) {
 }
 
 // rel is Rel of Protection.tla for a stored pair: "on", "off", "p<ticks
-// left>", "pF" (forever), "pP" (deadline in the past); a set flag together
-// with a deadline has no counterpart in the spec and is shown as such.
+// left>", "pF" (forever), "pP" (deadline in the past).  A set flag together
+// with a deadline still ahead has no counterpart in the spec and is shown as
+// such; once the deadline is reached the flag beside it has no say any more
+// (the pair stands for the pause that is over).
 func (z *zzG04Sys) rel(st zzG04Stored) (s string) {
 	if st.until == nil {
 		if st.en {
@@ -621,12 +623,12 @@ func (z *zzG04Sys) rel(st zzG04Stored) (s string) {
 		return "off"
 	}
 
+	left := st.until.Sub(time.Now())
 	p := "p"
-	if st.en {
+	if st.en && left > 0 {
 		p = "FLAG+p"
 	}
 
-	left := st.until.Sub(time.Now())
 	switch {
 	case left < 0:
 		return p + "P"
@@ -663,48 +665,767 @@ func (z *zzG04Sys) state() (s string) {
 	return s
 }
 
-// ------------------------------------------------------------------ probe
+// --------------------------------------------------------------- do (walk)
 
-// TestZZVerifG04Probe is a smoke test of the machinery.
-func TestZZVerifG04Probe(t *testing.T) {
-	synctest.Run(func() {
-		z := &zzG04Sys{t: t, dir: t.TempDir(), unit: time.Second, init: "on"}
-		z.reset(1)
-		defer z.shutdown()
+// zzG04HugeMS are durations (ms) whose deadline is not representable.
+var zzG04HugeMS = []string{
+	"9223372036855", "9223372036854776", "18446744073709", "18446744073710", "9223372036854775807",
+	"9223372036854775808", "18446744073709551615", "10000000000000000", "27670116110564", "36893488147419",
+}
 
-		rng := rand.New(rand.NewSource(1))
-		t.Logf("state %s", z.state())
-		for _, k := range []string{"rule", "svc", "sb", "par", "ss", "cname", "rw", "clean"} {
-			r, d := z.query(k, rng)
-			t.Logf("query %s: %s (%s)", k, r, d)
+// zzG04BigMS are representable durations (ms) beyond every horizon.
+var zzG04BigMS = []string{
+	"31536000000", "1000000000000", "157680000000", "9223372036853", "9223372036854", "4611686018427",
+}
+
+// durMS concretises a duration token of the spec: "0" .. "<MaxD>" ticks,
+// "big", "huge".  Zero is an absent member or an explicit 0.
+func (z *zzG04Sys) durMS(tok string, rng *rand.Rand) (ms string) {
+	switch tok {
+	case "0":
+		if rng.Intn(2) == 0 {
+			return ""
 		}
 
-		r, d := z.setProtection(false, "3000")
-		t.Logf("set: %s %s; state %s", r, d, z.state())
-		for _, k := range []string{"rule", "svc", "sb", "par", "ss", "cname", "rw", "clean"} {
-			r, d = z.query(k, rng)
-			t.Logf("query %s: %s (%s)", k, r, d)
+		return "0"
+	case "big":
+		return zzG04BigMS[rng.Intn(len(zzG04BigMS))]
+	case "huge":
+		return zzG04HugeMS[rng.Intn(len(zzG04HugeMS))]
+	default:
+		d, _ := strconv.Atoi(tok)
+
+		return strconv.FormatInt(int64(d)*int64(z.unit/time.Millisecond), 10)
+	}
+}
+
+// relReply renders a reported deadline relative to now: "none", "F", ticks.
+func (z *zzG04Sys) relReply(until *time.Time) (s string) {
+	if until == nil {
+		return "none"
+	}
+
+	left := until.Sub(time.Now())
+	if left >= time.Duration(zzG04Horizon)*time.Millisecond {
+		return "F"
+	}
+
+	return zzG04Units(left, z.unit)
+}
+
+// do executes one action of the spec's alphabet.  ran says that the
+// observation started the write-back worker and the worker (the real
+// goroutine) has run to completion.
+func (z *zzG04Sys) do(act string, seed int64) (out, detail string, ran bool) {
+	rng := rand.New(rand.NewSource(seed))
+	f := strings.Fields(act)
+	lazy := rng.Intn(5) < 3
+	switch f[0] {
+	case "set":
+		// set <1|0> <duration token>
+		out, detail = z.setProtection(f[1] == "1", z.durMS(f[2], rng))
+	case "flag":
+		out, detail = z.setFlag(f[1] == "1")
+	case "info":
+		started := z.observe(lazy, func() {
+			en, until, d, err := z.info()
+			if err != nil {
+				out, detail = "error", err.Error()
+
+				return
+			}
+
+			out, detail = fmt.Sprintf("%d,%s", zzG04B2I(en), z.relReply(until)), d
+		})
+		ran = started && !lazy
+	case "query":
+		started := z.observe(lazy, func() { out, detail = z.query(f[1], rng) })
+		ran = started && !lazy
+	case "worker":
+		if !z.vpend {
+			return "no-worker", "", false
 		}
 
-		en, until, d, err := z.info()
-		t.Logf("info: %t %v %s %v", en, until, d, err)
-		time.Sleep(3 * time.Second)
-		t.Logf("state %s", z.state())
-		started := z.observe(true, func() { r, d = z.query("rule", rng) })
-		t.Logf("query rule: %s (%s) started=%t state %s", r, d, started, z.state())
-		r, d = z.setFlag(false)
-		t.Logf("flag: %s %s; state %s", r, d, z.state())
 		z.worker()
-		t.Logf("worker; state %s", z.state())
-		r, d = z.setProtection(false, "18446744073710")
-		t.Logf("set: %s %s; state %s", r, d, z.state())
-		if err = z.restart(); err != nil {
-			t.Fatalf("restart: %v", err)
+		out = "none"
+	case "restart":
+		if err := z.restart(); err != nil {
+			return "error", err.Error(), false
 		}
-		t.Logf("restart; state %s", z.state())
-		t.Logf("disk:\n%s", z.disk)
+
+		out = "none"
+	case "tick":
+		d, _ := strconv.Atoi(f[1])
+		time.Sleep(time.Duration(d) * z.unit)
+		out = "none"
+	default:
+		return "unknown-act", act, false
+	}
+
+	synctest.Wait()
+	if ran {
+		detail += " [worker started and run]"
+	} else if z.vpend && f[0] != "worker" {
+		detail += " [worker held back]"
+	}
+
+	return out, detail, ran
+}
+
+func zzG04B2I(b bool) (i int) {
+	if b {
+		return 1
+	}
+
+	return 0
+}
+
+// ------------------------------------------------------------------ walker
+
+type zzG04Graph struct {
+	Init  []string    `json:"init"`
+	Edges [][4]string `json:"edges"`
+}
+
+type zzG04Edge struct {
+	src, act, dst, out string
+	covered            bool
+	skipped            int
+	idx                int
+}
+
+type zzG04Step struct {
+	Seed   int64  `json:"seed"`
+	Act    string `json:"act"`
+	Out    string `json:"out"`
+	State  string `json:"state"`
+	Ran    bool   `json:"ran,omitempty"`
+	Detail string `json:"detail,omitempty"`
+}
+
+type zzG04Walker struct {
+	g       *zzG04Graph
+	variant string
+	sys     *zzG04Sys
+	rng     *rand.Rand
+	w       *zzWriter
+	adj     map[string][]*zzG04Edge
+	all     []*zzG04Edge
+	cur     string
+	init    string
+	hist    []zzG04Step
+	maxHist int
+	rseed   int64
+
+	steps, resets, bad, flaky, covered, samples, composites int
+}
+
+func zzG04NewWalker(g *zzG04Graph, variant string, sys *zzG04Sys, rng *rand.Rand, w *zzWriter) (wk *zzG04Walker) {
+	wk = &zzG04Walker{g: g, variant: variant, sys: sys, rng: rng, w: w, adj: map[string][]*zzG04Edge{}, maxHist: 24}
+	for i, e := range g.Edges {
+		x := &zzG04Edge{src: e[0], act: e[1], dst: e[2], out: e[3], idx: i}
+		wk.adj[e[0]] = append(wk.adj[e[0]], x)
+		wk.all = append(wk.all, x)
+	}
+
+	return wk
+}
+
+func (wk *zzG04Walker) restart() {
+	wk.rseed = wk.rng.Int63()
+	wk.init = wk.g.Init[int(wk.rseed%int64(len(wk.g.Init)))]
+	wk.sys.init = wk.init
+	wk.sys.reset(wk.rseed)
+	wk.cur = wk.init
+	wk.hist = wk.hist[:0]
+	wk.resets++
+}
+
+func (e *zzG04Edge) open() (ok bool) { return !e.covered && e.skipped < 2 }
+
+// nextEdge returns the edge to try next: an open edge at the current state,
+// else the first edge of a shortest path to a state that has one.
+func (wk *zzG04Walker) nextEdge() (e *zzG04Edge) {
+	var open []*zzG04Edge
+	for _, x := range wk.adj[wk.cur] {
+		if x.open() {
+			open = append(open, x)
+		}
+	}
+
+	if len(open) > 0 {
+		return open[wk.rng.Intn(len(open))]
+	}
+
+	type item struct {
+		st    string
+		first *zzG04Edge
+	}
+
+	seen := map[string]bool{wk.cur: true}
+	queue := []item{{st: wk.cur}}
+	for len(queue) > 0 {
+		it := queue[0]
+		queue = queue[1:]
+		edges := wk.adj[it.st]
+		for _, i := range wk.rng.Perm(len(edges)) {
+			x := edges[i]
+			if x.skipped >= 2 {
+				continue
+			}
+
+			first := it.first
+			if first == nil {
+				first = x
+			}
+
+			if x.open() {
+				return first
+			}
+
+			if !seen[x.dst] {
+				seen[x.dst] = true
+				queue = append(queue, item{st: x.dst, first: first})
+			}
+		}
+	}
+
+	return nil
+}
+
+func (wk *zzG04Walker) acts() (acts []string) {
+	seen := map[string]bool{}
+	for _, x := range wk.adj[wk.cur] {
+		if !seen[x.act] {
+			seen[x.act] = true
+			acts = append(acts, x.act)
+		}
+	}
+
+	sort.Strings(acts)
+
+	return acts
+}
+
+// admissible lists the (reply, state) pairs the spec admits for act from st.
+// ran: the observation is followed by the worker's step.
+func (wk *zzG04Walker) admissible(st, act string, ran bool) (adm [][2]string, via map[[2]string][]*zzG04Edge) {
+	via = map[[2]string][]*zzG04Edge{}
+	for _, x := range wk.adj[st] {
+		if x.act != act {
+			continue
+		}
+
+		if !ran {
+			k := [2]string{x.out, x.dst}
+			adm = append(adm, k)
+			via[k] = []*zzG04Edge{x}
+
+			continue
+		}
+
+		for _, y := range wk.adj[x.dst] {
+			if y.act == "worker" && strings.HasSuffix(x.dst, "+w") && !strings.HasSuffix(st, "+w") {
+				k := [2]string{x.out, y.dst}
+				if _, ok := via[k]; !ok {
+					adm = append(adm, k)
+				}
+
+				via[k] = []*zzG04Edge{x, y}
+			}
+		}
+	}
+
+	return adm, via
+}
+
+// exec performs one action and checks the observation against the edges of
+// the spec.  It reports whether the walk may continue from the new state.
+func (wk *zzG04Walker) exec(act string, planned *zzG04Edge) (ok bool) {
+	seed := wk.rng.Int63()
+	out, detail, ran := wk.sys.do(act, seed)
+	obs := wk.sys.state()
+	wk.steps++
+
+	adm, via := wk.admissible(wk.cur, act, ran)
+	if edges, found := via[[2]string{out, obs}]; found {
+		for _, x := range edges {
+			if !x.covered {
+				x.covered = true
+				wk.covered++
+			}
+		}
+
+		if ran {
+			wk.composites++
+		}
+
+		if planned != nil && planned != edges[0] {
+			planned.skipped++
+		}
+
+		wk.hist = append(wk.hist, zzG04Step{Seed: seed, Act: act, Out: out, State: obs, Ran: ran, Detail: detail})
+		wk.cur = obs
+		if wk.samples < 2 && len(wk.hist) == 10 {
+			wk.samples++
+			wk.w.put(map[string]any{"kind": "sample", "variant": wk.variant, "init": wk.init, "history": wk.hist})
+		}
+
+		return true
+	}
+
+	// Disagreement: reproduce it in isolation (fresh objects, same history)
+	// before reporting it.
+	rec := map[string]any{
+		"variant": wk.variant, "init": wk.init, "from": wk.cur,
+		"history": append([]zzG04Step{}, wk.hist...), "act": act, "ran": ran, "admissible": adm,
+		"reset_seed": wk.rseed, "act_seed": seed,
+		"got": [2]string{out, obs}, "detail": detail, "concrete": wk.sys.describe(),
+	}
+
+	hist := append([]zzG04Step{}, wk.hist...)
+	wk.sys.init = wk.init
+	wk.sys.reset(wk.rseed)
+	same := true
+	for _, st := range hist {
+		o, _, _ := wk.sys.do(st.Act, st.Seed)
+		if o != st.Out || wk.sys.state() != st.State {
+			same = false
+
+			break
+		}
+	}
+
+	reproduced := false
+	if same {
+		out2, detail2, ran2 := wk.sys.do(act, seed)
+		obs2 := wk.sys.state()
+		adm2, via2 := wk.admissible(wk.cur, act, ran2)
+		_, found := via2[[2]string{out2, obs2}]
+		reproduced = !found
+		rec["got2"] = [2]string{out2, obs2}
+		rec["detail2"] = detail2
+		rec["admissible2"] = adm2
+	}
+
+	if reproduced {
+		rec["kind"] = "bad"
+		wk.bad++
+	} else {
+		rec["kind"] = "flaky"
+		wk.flaky++
+	}
+
+	wk.w.put(rec)
+	if planned != nil {
+		planned.skipped = 2
+	}
+
+	wk.restart()
+
+	return false
+}
+
+const zzG04MaxBad = 3000
+
+// tour covers every open edge once (greedy nearest-uncovered-edge walk).
+func (wk *zzG04Walker) tour() {
+	for wk.bad < zzG04MaxBad {
+		if len(wk.hist) >= wk.maxHist {
+			wk.restart()
+		}
+
+		e := wk.nextEdge()
+		if e == nil {
+			if len(wk.hist) == 0 {
+				// Nothing left from this initial state; try the others.
+				left := false
+				for _, in := range wk.g.Init {
+					if in != wk.init {
+						wk.cur = in
+						if wk.nextEdge() != nil {
+							left = true
+						}
+
+						wk.cur = wk.init
+					}
+				}
+
+				if !left {
+					return
+				}
+			}
+
+			wk.restart()
+
+			continue
+		}
+
+		wk.exec(e.act, e)
+	}
+}
+
+// random performs n random steps of the spec's alphabet.
+func (wk *zzG04Walker) random(n int) {
+	for i := 0; i < n && wk.bad < zzG04MaxBad; i++ {
+		if len(wk.hist) >= wk.maxHist {
+			wk.restart()
+		}
+
+		acts := wk.acts()
+		if len(acts) == 0 {
+			wk.restart()
+
+			continue
+		}
+
+		// Keep the known trouble makers rare: a disagreement ends a history.
+		var pick []string
+		for _, a := range acts {
+			switch {
+			case strings.HasSuffix(a, " huge"), strings.HasPrefix(a, "flag"):
+				if wk.rng.Intn(12) == 0 {
+					pick = append(pick, a)
+				}
+			case strings.HasPrefix(a, "tick"):
+				if wk.rng.Intn(2) == 0 {
+					pick = append(pick, a)
+				}
+			default:
+				pick = append(pick, a)
+			}
+		}
+
+		if len(pick) == 0 {
+			pick = acts
+		}
+
+		wk.exec(pick[wk.rng.Intn(len(pick))], nil)
+	}
+}
+
+func (wk *zzG04Walker) summary() {
+	uncovered := []int{}
+	for _, e := range wk.all {
+		if !e.covered {
+			uncovered = append(uncovered, e.idx)
+		}
+	}
+
+	wk.w.put(map[string]any{
+		"kind": "summary", "variant": wk.variant, "edges": len(wk.all), "covered": wk.covered,
+		"steps": wk.steps, "resets": wk.resets, "bad": wk.bad, "flaky": wk.flaky, "composites": wk.composites,
+		"uncovered_idx": uncovered,
+	})
+}
+
+func zzG04Thorough() (ok bool) { return strings.TrimSpace(zzGetenv("VERIF_TIER")) == "thorough" }
+
+// zzG04UnitsOf are the lengths of one tick of the exhaustive model in the
+// walks (variant name -> duration).
+var zzG04UnitsOf = []struct {
+	name string
+	d    time.Duration
+}{
+	{"1ms", time.Millisecond}, {"1s", time.Second}, {"1h", time.Hour}, {"7ms", 7 * time.Millisecond},
+	{"1min", time.Minute}, {"1day", 24 * time.Hour},
+}
+
+// TestZZVerifG04Walk is direction A.
+func TestZZVerifG04Walk(t *testing.T) {
+	w := zzNewWriter(t, "VERIF_OUT")
+	defer w.close()
+
+	var g *zzG04Graph
+	zzReadNDJSON(t, "VERIF_IN", func(line []byte) {
+		g = &zzG04Graph{}
+		if err := json.Unmarshal(line, g); err != nil {
+			t.Fatalf("bad graph: %v", err)
+		}
 	})
 
-	_ = os.Getenv
-	_ = sort.Strings
+	if g == nil || len(g.Init) == 0 {
+		t.Fatalf("no graph")
+	}
+
+	nunits, tours, nrand := 3, 1, 1500
+	if zzG04Thorough() {
+		nunits, tours, nrand = len(zzG04UnitsOf), 3, 12000
+	}
+
+	dir := t.TempDir()
+	for ui := 0; ui < nunits; ui++ {
+		u := zzG04UnitsOf[ui]
+		for tour := 0; tour < tours; tour++ {
+			rng := rand.New(rand.NewSource(zzSeed()*7919 + int64(ui)*101 + int64(tour)))
+			sys := &zzG04Sys{t: t, dir: dir, unit: u.d}
+			wk := zzG04NewWalker(g, u.name, sys, rng, w)
+			synctest.Run(func() {
+				wk.restart()
+				wk.tour()
+				wk.restart()
+				wk.random(nrand)
+				sys.shutdown()
+			})
+			wk.summary()
+		}
+	}
+
+	w.put(map[string]any{"kind": "done"})
 }
+
+// TestZZVerifG04Replay re-executes one stored disagreement (history + step).
+func TestZZVerifG04Replay(t *testing.T) {
+	w := zzNewWriter(t, "VERIF_OUT")
+	defer w.close()
+
+	zzReadNDJSON(t, "VERIF_IN", func(line []byte) {
+		rec := &struct {
+			Variant    string      `json:"variant"`
+			Init       string      `json:"init"`
+			History    []zzG04Step `json:"history"`
+			Act        string      `json:"act"`
+			ResetSeed  int64       `json:"reset_seed"`
+			ActSeed    int64       `json:"act_seed"`
+			Admissible [][2]string `json:"admissible"`
+		}{}
+		if err := json.Unmarshal(line, rec); err != nil {
+			t.Fatalf("bad record: %v", err)
+		}
+
+		unit := time.Second
+		for _, u := range zzG04UnitsOf {
+			if u.name == rec.Variant {
+				unit = u.d
+			}
+		}
+
+		sys := &zzG04Sys{t: t, dir: t.TempDir(), unit: unit, init: rec.Init}
+		synctest.Run(func() {
+			sys.reset(rec.ResetSeed)
+			var steps []zzG04Step
+			for _, st := range rec.History {
+				o, d, ran := sys.do(st.Act, st.Seed)
+				steps = append(steps, zzG04Step{Seed: st.Seed, Act: st.Act, Out: o, State: sys.state(), Ran: ran, Detail: d})
+			}
+
+			out, detail, ran := sys.do(rec.Act, rec.ActSeed)
+			obs := sys.state()
+			ok := false
+			for _, a := range rec.Admissible {
+				if a[0] == out && a[1] == obs {
+					ok = true
+				}
+			}
+
+			w.put(map[string]any{"kind": "replay", "ok": ok, "act": rec.Act, "ran": ran, "admissible": rec.Admissible,
+				"got": [2]string{out, obs}, "detail": detail, "history": steps, "concrete": sys.describe()})
+			sys.shutdown()
+		})
+	})
+}
+
+// ------------------------------------------------------------- direction B
+
+// zzG04TraceSel returns the indices of the traces to generate.
+func zzG04TraceSel(n int) (sel []int) {
+	if only := zzGetenv("VERIF_G04_ONLY"); only != "" {
+		for _, f := range strings.Split(only, ",") {
+			if k, err := strconv.Atoi(f); err == nil {
+				sel = append(sel, k)
+			}
+		}
+
+		return sel
+	}
+
+	for k := 0; k < n; k++ {
+		sel = append(sel, k)
+	}
+
+	return sel
+}
+
+// zzG04Proj is the projected state of a trace line: the stored pair (deadline
+// in ms since the origin of the trace; 0 none, zzG04Horizon forever) and the
+// worker flag.
+type zzG04Proj struct {
+	En bool  `json:"en"`
+	U  int64 `json:"u"`
+	W  bool  `json:"w"`
+}
+
+func (z *zzG04Sys) msSince(until *time.Time) (u int64, exact bool) {
+	if until == nil {
+		return 0, true
+	}
+
+	d := until.Sub(z.t0)
+	if d >= time.Duration(zzG04Horizon)*time.Millisecond {
+		return zzG04Horizon, true
+	}
+
+	return int64(d / time.Millisecond), d%time.Millisecond == 0
+}
+
+func (z *zzG04Sys) proj(st zzG04Stored) (p zzG04Proj) {
+	u, exact := z.msSince(st.until)
+	if !exact {
+		// Not a whole number of milliseconds: no instant of the trace.
+		u = -7777
+	}
+
+	return zzG04Proj{En: st.en, U: u}
+}
+
+func zzG04Trace(t *testing.T, w *zzWriter, k, steps int) {
+	rng := rand.New(rand.NewSource(zzSeed()*1000003 + int64(k)))
+	sys := &zzG04Sys{t: t, dir: t.TempDir(), unit: time.Millisecond, init: []string{"on", "on", "off"}[rng.Intn(3)]}
+
+	synctest.Run(func() {
+		sys.reset(rng.Int63())
+		defer sys.shutdown()
+
+		nowMS := func() (ms int64) { return int64(time.Since(sys.t0) / time.Millisecond) }
+		cur := func() (mem, disk zzG04Proj) {
+			mem = sys.proj(sys.mem())
+			mem.W = sys.s.protectionUpdateInProgress.Load()
+			d, err := sys.onDisk()
+			disk = sys.proj(d)
+			if err != nil {
+				disk.U = -8888
+			}
+
+			return mem, disk
+		}
+
+		var pre zzG04Proj
+		line := func(kind string, m map[string]any) {
+			post, disk := cur()
+			rec := map[string]any{"tr": k, "k": kind, "now": nowMS(), "pre": pre, "post": post, "disk": disk,
+				"en": false, "d": 0, "dk": "num", "kind": "", "res": "", "ren": false, "ru": 0, "ran": false,
+				"detail": "", "concrete": sys.describe()}
+			for kk, v := range m {
+				rec[kk] = v
+			}
+
+			w.put(rec)
+		}
+
+		pre, _ = cur()
+		line("reset", nil)
+		// The durations this history plays with.
+		base := []int64{1, 2, 5, 1000, 60000, 3600000, 86400000, 999999999}[rng.Intn(8)]
+		for i := 0; i < steps && nowMS() < 400000000; i++ {
+			pre, _ = cur()
+			lazy := rng.Intn(2) == 0
+			switch c := rng.Intn(100); {
+			case c < 22:
+				// POST /control/protection.
+				en := rng.Intn(4) == 0
+				dk, d, ms := "num", int64(0), ""
+				switch x := rng.Intn(20); {
+				case x < 4:
+					ms = []string{"", "0"}[rng.Intn(2)]
+				case x < 15:
+					d = []int64{1, base, base, base + 1, 2 * base, 1 + rng.Int63n(3*base)}[rng.Intn(6)]
+					if d > 999999999 {
+						d = 999999999
+					}
+
+					ms = strconv.FormatInt(d, 10)
+				case x < 18:
+					dk, ms = "big", zzG04BigMS[rng.Intn(len(zzG04BigMS))]
+				default:
+					dk, ms = "huge", zzG04HugeMS[rng.Intn(len(zzG04HugeMS))]
+				}
+
+				res, detail := sys.setProtection(en, ms)
+				synctest.Wait()
+				line("set", map[string]any{"en": en, "d": d, "dk": dk, "res": res, "detail": detail})
+			case c < 26:
+				en := rng.Intn(2) == 0
+				res, detail := sys.setFlag(en)
+				synctest.Wait()
+				line("flag", map[string]any{"en": en, "res": res, "detail": detail})
+			case c < 42:
+				var m map[string]any
+				started := sys.observe(lazy, func() {
+					en, until, d, err := sys.info()
+					u, exact := sys.msSince(until)
+					if err != nil || !exact {
+						u = -7777
+					}
+
+					m = map[string]any{"ren": en, "ru": u, "detail": d}
+				})
+				m["ran"] = started && !lazy
+				line("info", m)
+			case c < 62:
+				kinds := []string{"rule", "svc", "sb", "par", "ss", "cname", "rw", "clean"}
+				kind := kinds[rng.Intn(len(kinds))]
+				var res, detail string
+				started := sys.observe(lazy, func() { res, detail = sys.query(kind, rng) })
+				line("query", map[string]any{"kind": kind, "res": res, "detail": detail, "ran": started && !lazy})
+			case c < 70:
+				if !sys.vpend {
+					i--
+
+					continue
+				}
+
+				sys.worker()
+				synctest.Wait()
+				line("worker", nil)
+			case c < 76:
+				if err := sys.restart(); err != nil {
+					t.Fatalf("g04: restart: %v", err)
+				}
+
+				line("restart", nil)
+			default:
+				// Clock advance, biased towards the deadline.
+				var d int64
+				mem := sys.mem()
+				switch x := rng.Intn(10); {
+				case x < 5 && mem.until != nil && mem.until.After(time.Now()):
+					left := int64(mem.until.Sub(time.Now()) / time.Millisecond)
+					if left < 500000000 {
+						d = left + int64(rng.Intn(3)) - 1
+					}
+				case x < 7:
+					d = 1
+				case x < 9:
+					d = 1 + rng.Int63n(2*base)
+				default:
+					d = base
+				}
+
+				if d <= 0 {
+					d = 1
+				}
+
+				time.Sleep(time.Duration(d) * time.Millisecond)
+				synctest.Wait()
+				line("tick", map[string]any{"d": d})
+			}
+		}
+	})
+}
+
+// TestZZVerifG04Trace is direction B.
+func TestZZVerifG04Trace(t *testing.T) {
+	w := zzNewWriter(t, "VERIF_OUT_TRACE")
+	defer w.close()
+
+	ntr, steps := 150, 60
+	if zzG04Thorough() {
+		ntr, steps = 1200, 80
+	}
+
+	for _, k := range zzG04TraceSel(ntr) {
+		zzG04Trace(t, w, k, steps)
+	}
+}
+
+var _ = os.Getenv
